@@ -3,15 +3,13 @@
     Statements are in Properties/C16.v. *)
 From Coq Require Import ZArith Reals Bool Lra Lia Psatz.
 From Flocq Require Import Core BinarySingleNaN Relative Plus_error.
-From G3 Require Import Model.Num Model.Base Model.Vec Model.Transform Model.Proposed Proofs.C07_interval.
+From G3 Require Import Model.Num Model.Base Model.Vec Model.Transform Model.Pinned Proofs.C07_interval.
 Local Open Scope R_scope.
 
 (** ** Pure real-number cores *)
 Lemma poly3 u : 0 <= u -> (3 + 3*u + u*u) * ((1+u)*(1+u)) * (1 - 3*u) <= 3.
 Proof. intros. nra. Qed.
-Lemma poly4 u : 0 <= u <= /256 -> (4 + 6*u + 4*u*u + u*u*u) * ((1+u)*(1+u)) * (1 - 3*u) <= 4 * (1 + u).
-Proof. intros. nra. Qed.
-(** remark: with gamma(4) = 4u/(1-4u) in the two point functions the same chain closes with factor 1 *)
+(** points, with gamma(4) = 4u/(1-4u): four roundings per row *)
 Lemma poly4_gamma4 u : 0 <= u <= /256 -> (4 + 6*u + 4*u*u + u*u*u) * ((1+u)*(1+u)) * (1 - 4*u) <= 4.
 Proof. intros. nra. Qed.
 
@@ -39,6 +37,30 @@ Proof.
   - replace (E*((1+u)*k)) with ((1+u)*E*k) by ring. exact K5.
 Qed.
 
+(** [E] dominates [Q*S2] whenever [Q (1+u)^2 (1-4u) <= 4u] *)
+Lemma core_tail4 (u g S2 S3 E Q : R) :
+  0 < u <= /256 -> 0 <= S2 -> S2 <= S3 -> 0 <= Q ->
+  S3 * g <= (1+u) * E -> 4*u <= g*((1+u)*(1-4*u)) ->
+  Q * ((1+u)*(1+u)*(1-4*u)) <= 4*u ->
+  Q * S2 <= E.
+Proof.
+  intros Hu HS2 H3 HQ H4 H5 HP.
+  assert (Hk : 0 < (1+u)*(1-4*u)) by nra.
+  set (k := (1+u)*(1-4*u)) in *.
+  assert (Hg : 0 <= g) by (apply Rmult_le_reg_r with (1 := Hk); lra).
+  assert (K4 : S2 * g <= (1+u)*E).
+  { apply Rle_trans with (S3*g); [apply Rmult_le_compat_r; lra | lra]. }
+  assert (K5 : S2 * (4*u) <= (1+u)*E*k).
+  { apply Rle_trans with (S2*(g*k)). apply Rmult_le_compat_l; lra.
+    replace (S2*(g*k)) with ((S2*g)*k) by ring. apply Rmult_le_compat_r; lra. }
+  assert (K7 : 0 < (1+u)*k) by (apply Rmult_lt_0_compat; lra).
+  apply Rmult_le_reg_r with (1 := K7).
+  apply Rle_trans with (S2 * (4*u)).
+  - replace (Q * S2 * ((1+u)*k)) with (S2 * (Q * ((1+u)*(1+u)*(1-4*u)))) by (unfold k; ring).
+    apply Rmult_le_compat_l; lra.
+  - replace (E*((1+u)*k)) with ((1+u)*E*k) by ring. exact K5.
+Qed.
+
 (** vectors: [((a + b) + c)], three roundings on [a], [b] *)
 Lemma core_vec (u g A B C S1 S2 S3 E : R) :
   0 < u <= /256 -> 0 <= A -> 0 <= B -> 0 <= C -> 0 <= S1 -> 0 <= S2 ->
@@ -60,12 +82,12 @@ Proof.
   replace (3*u) with (u*3) by ring. apply Rmult_le_compat_l; lra.
 Qed.
 
-(** points: one more rounding, [((a + b) + c) + t]: four roundings on [a], [b] against gamma(3) *)
-Lemma core_pt (u g A B C T S1 S2 S3 E : R) :
+(** points: one more rounding, [((a + b) + c) + t]: four roundings on [a], [b], covered by gamma(4) *)
+Lemma core_pt4 (u g A B C T S1 S2 S3 E : R) :
   0 < u <= /256 -> 0 <= A -> 0 <= B -> 0 <= C -> 0 <= T -> 0 <= S1 -> 0 <= S2 -> 0 <= S3 ->
   A + B <= (1+u)*S1 -> S1 + C <= (1+u)*S2 -> S2 + T <= (1+u)*S3 ->
-  S3 * g <= (1+u) * E -> 3*u <= g*((1+u)*(1-3*u)) ->
-  3 * (u*(S3 + S2 + S1 + A + B + C)) <= 4 * (1+u) * E.
+  S3 * g <= (1+u) * E -> 4*u <= g*((1+u)*(1-4*u)) ->
+  u*(S3 + S2 + S1 + A + B + C) <= E.
 Proof.
   intros Hu HA HB HC HT HS1 HS2 HS3 H1 H2 H3 H4 H5.
   assert (K0 : S2 <= (1+u)*S3) by lra.
@@ -75,19 +97,13 @@ Proof.
   assert (K2b : (1+u)*(S1 + C) <= (1+u)*((1+u)*S2)) by (apply Rmult_le_compat_l; lra).
   assert (K2c : (1+u)*((1+u)*S2) <= (1+u)*((1+u)*((1+u)*S3))) by (apply Rmult_le_compat_l; lra).
   assert (K3a : S3 + S2 + S1 + A + B + C <= (4 + 6*u + 4*u*u + u*u*u)*S3) by lra.
-  assert (HE : (3 * u * (4 + 6*u + 4*u*u + u*u*u) / (4 * (1+u))) * S3 <= E).
-  { apply core_tail with (u := u) (g := g) (S3 := S3); try assumption; try lra.
-    - apply Rmult_le_pos. nra. left. apply Rinv_0_lt_compat. lra.
-    - pose proof (poly4 u ltac:(lra)) as P.
-      apply Rmult_le_reg_r with (4 * (1+u)). lra.
-      replace (3 * u * (4 + 6 * u + 4 * u * u + u * u * u) / (4 * (1 + u)) * ((1 + u) * (1 + u) * (1 - 3 * u)) * (4 * (1 + u)))
-        with (3 * u * ((4 + 6 * u + 4 * u * u + u * u * u) * ((1 + u) * (1 + u)) * (1 - 3 * u))) by (field; lra).
-      apply Rmult_le_compat_l; lra. }
-  apply Rle_trans with (3 * (u * ((4 + 6*u + 4*u*u + u*u*u)*S3))).
-  apply Rmult_le_compat_l. lra. apply Rmult_le_compat_l; lra.
-  apply Rle_trans with (4 * (1+u) * ((3 * u * (4 + 6*u + 4*u*u + u*u*u) / (4 * (1+u))) * S3)).
-  right. field. lra.
-  apply Rmult_le_compat_l; lra.
+  apply Rle_trans with (u*((4 + 6*u + 4*u*u + u*u*u)*S3)). apply Rmult_le_compat_l; lra.
+  replace (u*((4 + 6*u + 4*u*u + u*u*u)*S3)) with ((u*(4 + 6*u + 4*u*u + u*u*u))*S3) by ring.
+  apply core_tail4 with (u := u) (g := g) (S3 := S3); try assumption; try lra. nra.
+  pose proof (poly4_gamma4 u ltac:(lra)) as P.
+  replace (u * (4 + 6 * u + 4 * u * u + u * u * u) * ((1 + u) * (1 + u) * (1 - 4 * u)))
+    with (u * ((4 + 6*u + 4*u*u + u*u*u) * ((1+u)*(1+u)) * (1 - 4*u))) by ring.
+  replace (4*u) with (u*4) by ring. apply Rmult_le_compat_l; lra.
 Qed.
 
 (** the propagated input error: [D] is the exact first-order spread, [err1] what the code adds for it *)
@@ -123,8 +139,6 @@ Qed.
 
 Lemma poly7 u : 0 <= u <= /256 -> (1+u)^7 <= (1+4*u)*(1+4*u).
 Proof. intros. nra. Qed.
-Lemma poly5 u : 0 <= u <= /256 -> 3*(1+u)^5 <= 4*(1+4*u).
-Proof. intros. nra. Qed.
 Lemma poly8 u : 0 <= u <= /256 -> (1+u)^8 <= 1 + 9*u.
 Proof. intros. nra. Qed.
 
@@ -151,28 +165,6 @@ Proof.
     apply mul_chain. lra. apply mul_chain; lra.
 Qed.
 
-Lemma core_pt_box (u D' D act E err1 err : R) :
-  0 < u <= /256 -> 0 <= err1 -> 0 <= E -> D' <= D -> 3 * act <= 4*(1+u)*E ->
-  D * (1+4*u) <= (1+u)^6 * err1 -> err1 + E <= (1+u)*err ->
-  3 * (D' + act) <= 4 * (1+3*u) * err.
-Proof.
-  intros Hu H1 HE HD Ha d1 e1.
-  pose proof (poly5 u ltac:(lra)) as P.
-  assert (A1 : 3 * D <= 4 * (1+u) * err1).
-  { apply Rmult_le_reg_r with (1+4*u). lra.
-    apply Rle_trans with (3*((1+u)^6*err1)).
-    replace (3*D*(1+4*u)) with (3*(D*(1+4*u))) by ring. apply mul_chain; lra.
-    replace (3*((1+u)^6*err1)) with ((3*(1+u)^5)*((1+u)*err1)) by ring.
-    replace (4*(1+u)*err1*(1+4*u)) with ((4*(1+4*u))*((1+u)*err1)) by ring.
-    apply Rmult_le_compat_r. apply Rmult_le_pos; lra. exact P. }
-  assert (A2 : 3*(D'+act) <= 4*(1+u)*(err1+E)) by lra.
-  apply Rle_trans with (1 := A2).
-  apply Rle_trans with (4*(1+u)*((1+u)*err)). apply mul_chain; lra.
-  assert (He : 0 <= err) by (apply Rmult_le_reg_l with (1+u); lra).
-  replace (4*(1+u)*((1+u)*err)) with ((4*((1+u)*(1+u)))*err) by ring.
-  apply Rmult_le_compat_r. exact He. nra.
-Qed.
-
 (** upper bounds, for (M) *)
 Lemma core_M (u g gm S3 Sg E : R) :
   0 < u <= /256 -> 0 <= Sg -> 0 <= S3 -> 0 <= gm -> 0 <= g ->
@@ -196,24 +188,24 @@ Proof.
   replace ((1+u)^7*((1+gm)*Pi)) with ((1+u)*(((1+u)*((1+u)*((1+u)*((1+u)*Pi))))*((1+u)*((1+u)*(1+gm))))) by ring.
   apply mul_chain. lra. apply Rmult_le_compat; lra.
 Qed.
-Lemma core_M2 (u gm Pi Sg err1 E err : R) :
-  0 < u <= /256 -> 0 <= Pi -> 0 <= Sg -> 0 <= gm ->
-  err1 <= (1+u)^7 * ((1+gm) * Pi) -> E <= (1+u)^6 * (gm * Sg) -> err <= (1+u)*(err1 + E) ->
-  err <= (1 + 9*u) * ((1+gm)*Pi + gm*Sg).
+Lemma core_M2 (u gm1 gm2 Pi Sg err1 E err : R) :
+  0 < u <= /256 -> 0 <= Pi -> 0 <= Sg -> 0 <= gm1 -> 0 <= gm2 ->
+  err1 <= (1+u)^7 * ((1+gm1) * Pi) -> E <= (1+u)^6 * (gm2 * Sg) -> err <= (1+u)*(err1 + E) ->
+  err <= (1 + 9*u) * ((1+gm1)*Pi + gm2*Sg).
 Proof.
-  intros Hu HP HS Hg e1 e2 e3.
+  intros Hu HP HS Hg1 Hg2 e1 e2 e3.
   pose proof (poly8 u ltac:(lra)) as P.
-  assert (Q1 : 0 <= (1+gm)*Pi) by (apply Rmult_le_pos; lra).
-  assert (Q2 : 0 <= gm*Sg) by (apply Rmult_le_pos; lra).
+  assert (Q1 : 0 <= (1+gm1)*Pi) by (apply Rmult_le_pos; lra).
+  assert (Q2 : 0 <= gm2*Sg) by (apply Rmult_le_pos; lra).
   apply Rle_trans with (1 := e3).
-  apply Rle_trans with ((1+u)^8*((1+gm)*Pi + gm*Sg)).
-  - assert (B1 : (1+u)*err1 <= (1+u)^8*((1+gm)*Pi)).
-    { replace ((1+u)^8*((1+gm)*Pi)) with ((1+u)*((1+u)^7*((1+gm)*Pi))) by ring. apply mul_chain; lra. }
-    assert (B2 : (1+u)*E <= (1+u)^8*(gm*Sg)).
-    { apply Rle_trans with ((1+u)*((1+u)^6*(gm*Sg))). apply mul_chain; lra.
-      replace ((1+u)^8*(gm*Sg)) with ((1+u)*((1+u)*((1+u)^6*(gm*Sg)))) by ring.
+  apply Rle_trans with ((1+u)^8*((1+gm1)*Pi + gm2*Sg)).
+  - assert (B1 : (1+u)*err1 <= (1+u)^8*((1+gm1)*Pi)).
+    { replace ((1+u)^8*((1+gm1)*Pi)) with ((1+u)*((1+u)^7*((1+gm1)*Pi))) by ring. apply mul_chain; lra. }
+    assert (B2 : (1+u)*E <= (1+u)^8*(gm2*Sg)).
+    { apply Rle_trans with ((1+u)*((1+u)^6*(gm2*Sg))). apply mul_chain; lra.
+      replace ((1+u)^8*(gm2*Sg)) with ((1+u)*((1+u)*((1+u)^6*(gm2*Sg)))) by ring.
       apply mul_chain. lra.
-      assert (0 <= (1+u)^6*(gm*Sg)). { apply Rmult_le_pos. apply pow_le. lra. lra. } nra. }
+      assert (0 <= (1+u)^6*(gm2*Sg)). { apply Rmult_le_pos. apply pow_le. lra. lra. } nra. }
     lra.
   - apply Rmult_le_compat_r; lra.
 Qed.
@@ -520,6 +512,34 @@ Section C16_float.
     split; nra.
   Qed.
 
+  (** the multiplier of the point functions: within one rounding of gamma(4) = 4u/(1-4u) *)
+  Definition gamma4 : R := 4 * uro / (1 - 4 * uro).
+  Definition gok4 (g : R) : Prop :=
+    format g /\ 4 * uro <= g * ((1 + uro) * (1 - 4 * uro)) /\ g <= (1 + uro) * gamma4.
+  Lemma gamma4_pos : 0 < gamma4.
+  Proof. pose proof uro_range. unfold gamma4. apply Rdiv_lt_0_compat; lra. Qed.
+  Lemma gamma4_eq : gamma4 * (1 - 4 * uro) = 4 * uro.
+  Proof. pose proof uro_range. unfold gamma4. field. lra. Qed.
+  Lemma gok4_low : forall g, gok4 g -> 2 * uro <= g.
+  Proof.
+    intros g (_ & H & _). pose proof uro_range as Hu.
+    assert (Hk : 0 < (1 + uro) * (1 - 4 * uro)) by nra.
+    assert (Hg : 0 <= g) by (apply Rmult_le_reg_r with (1 := Hk); lra).
+    assert (H1 : 4 * uro <= g * (1 + uro)).
+    { apply Rle_trans with (1 := H). rewrite <- Rmult_assoc. rewrite <- (Rmult_1_r (g * (1 + uro))) at 2.
+      apply Rmult_le_compat_l. apply Rmult_le_pos; lra. lra. }
+    nra.
+  Qed.
+  (** gamma(4) against the property's yardstick gamma(3) *)
+  Lemma gamma4_le : gamma4 <= 135 / 100 * gamma3.
+  Proof.
+    pose proof uro_range as Hu. unfold gamma4, gamma3.
+    apply Rmult_le_reg_r with ((1 - 4 * uro) * (1 - 3 * uro)). nra.
+    replace (4 * uro / (1 - 4 * uro) * ((1 - 4 * uro) * (1 - 3 * uro))) with (4 * uro * (1 - 3 * uro)) by (field; lra).
+    replace (135 / 100 * (3 * uro / (1 - 3 * uro)) * ((1 - 4 * uro) * (1 - 3 * uro))) with (135 / 100 * (3 * uro) * (1 - 4 * uro)) by (field; lra).
+    nra.
+  Qed.
+
   Lemma tiny_pos : 0 < tiny.
   Proof. apply bpow_gt_0. Qed.
   Lemma tiny_2u : bpow radix2 (emin + prec - 1) <= tiny * (2 * uro).
@@ -579,16 +599,16 @@ Section C16_float.
       apply (core_vec uro g _ _ _ _ _ (rabs4 a b c t)); try assumption.
   Qed.
 
-  (** *** (S), points, PARTIAL: four roundings against gamma(3) leave a factor 4/3 (1+u) *)
-  Lemma pt_real : forall a b c t g, safe a -> safe b -> safe c -> format t -> gok g ->
-    3 * Rabs (rrow4 a b c t - (a + b + c + t)) <= 4 * (1 + uro) * RN (rabs4 a b c t * g).
+  (** *** (S), points: four roundings, gamma(4): no extra factor *)
+  Lemma pt_real : forall a b c t g, safe a -> safe b -> safe c -> format t -> gok4 g ->
+    Rabs (rrow4 a b c t - (a + b + c + t)) <= RN (rabs4 a b c t * g).
   Proof.
     intros a b c t g Ha Hb Hc Ft Hg. pose proof uro_range as Hu.
-    destruct (gok_low g Hg) as (Hg2 & _). pose proof Hg as (_ & Hg3 & _).
+    pose proof (gok4_low g Hg) as Hg2. pose proof Hg as (_ & Hg3 & _).
     destruct (safe_cases a b c Ha Hb Hc) as [(-> & -> & ->)|Hbig].
     - unfold rrow4. rewrite rrow3_0, Rplus_0_l, (RN_id t Ft).
-      replace (t - (0 + 0 + 0 + t)) with 0 by ring. rewrite Rabs_R0, Rmult_0_r.
-      apply Rmult_le_pos. lra. apply RN_nonneg. apply Rmult_le_pos. apply rabs4_pos. lra.
+      replace (t - (0 + 0 + 0 + t)) with 0 by ring. rewrite Rabs_R0.
+      apply RN_nonneg. apply Rmult_le_pos. apply rabs4_pos. lra.
     - pose proof (safe_normal a Ha) as Na. pose proof (safe_normal b Hb) as Nb. pose proof (safe_normal c Hc) as Nc.
       destruct (chain_pos a b c t) as (HA & HB & HC & HT & H1 & H2 & H3).
       destruct (chain_low a b c t Ft) as (l1 & l2 & l3 & _ & _ & _ & _ & l8 & _).
@@ -596,9 +616,8 @@ Section C16_float.
       pose proof (chain_big a b c t Ft Hbig) as Hb2.
       assert (Hs3 : rabs4 a b c t = 0 \/ tiny <= rabs4 a b c t) by (right; unfold rabs4, rabs3; lra).
       destruct (scale_facts (rabs4 a b c t) g H3 Hs3 Hg2) as (_ & e1 & _).
-      apply Rle_trans with (3 * (uro * (rabs4 a b c t + rabs3 a b c + RN (Rabs (RN a) + Rabs (RN b)) + Rabs (RN a) + Rabs (RN b) + Rabs (RN c)))).
-      apply Rmult_le_compat_l. lra. exact v4.
-      apply (core_pt uro g _ _ _ (Rabs t) _ _ (rabs4 a b c t)); try assumption.
+      apply Rle_trans with (1 := v4).
+      apply (core_pt4 uro g _ _ _ (Rabs t) _ _ (rabs4 a b c t)); try assumption.
   Qed.
 
   (** ** The propagated part *)
@@ -614,7 +633,8 @@ Section C16_float.
     split. apply format_RN. unfold rG. tauto.
   Qed.
   Definition rerr1 (pa pb pc t g : R) : R := RN (rabs4 pa pb pc t * rG g).
-  Definition rerr (a b c pa pb pc t1 t g : R) : R := RN (rerr1 pa pb pc t1 g + RN (rabs4 a b c t * g)).
+  (** [g] multiplies the propagated part (through [1+g]), [g2] the rounding part *)
+  Definition rerr (a b c pa pb pc t1 t g g2 : R) : R := RN (rerr1 pa pb pc t1 g + RN (rabs4 a b c t * g2)).
   Lemma rabs4_t0 : forall a b c, rabs4 a b c 0 = rabs3 a b c.
   Proof. intros. unfold rabs4. rewrite Rabs_R0, Rplus_0_r. apply RN_id. apply format_RN. Qed.
   Lemma rabs4_cases : forall a b c t, safe a -> safe b -> safe c -> format t ->
@@ -632,6 +652,11 @@ Section C16_float.
   Lemma E_pos : forall a b c t g, gok g -> 0 <= RN (rabs4 a b c t * g).
   Proof.
     intros. apply RN_nonneg. apply Rmult_le_pos. apply rabs4_pos. destruct (G_facts g H) as (_ & _ & _ & _ & G1). exact G1.
+  Qed.
+
+  Lemma E_pos4 : forall a b c t g, gok4 g -> 0 <= RN (rabs4 a b c t * g).
+  Proof.
+    intros. apply RN_nonneg. apply Rmult_le_pos. apply rabs4_pos. pose proof (gok4_low g H). pose proof uro_pos. lra.
   Qed.
 
   Lemma box_D : forall pa pb pc t g, safe pa -> safe pb -> safe pc -> format t -> gok g ->
@@ -654,7 +679,7 @@ Section C16_float.
   (** *** (S) with an input box, vectors: PARTIAL, factor (1+4u) *)
   Lemma vec_box_real : forall a b c pa pb pc t1 t g d, safe a -> safe b -> safe c -> safe pa -> safe pb -> safe pc ->
     format t1 -> format t -> gok g -> Rabs d <= Rabs pa + Rabs pb + Rabs pc ->
-    Rabs (rrow3 a b c - (a + b + c + d)) <= (1 + 4 * uro) * rerr a b c pa pb pc t1 t g.
+    Rabs (rrow3 a b c - (a + b + c + d)) <= (1 + 4 * uro) * rerr a b c pa pb pc t1 t g g.
   Proof.
     intros a b c pa pb pc t1 t g d Ha Hb Hc Hpa Hpb Hpc Ft1 Ft Hg Hd. pose proof uro_range as Hu.
     pose proof (vec_real a b c t g Ha Hb Hc Ft Hg) as V.
@@ -665,20 +690,19 @@ Section C16_float.
     apply Rle_trans with (1 := Rabs_triang _ _). rewrite Rabs_Ropp.
     apply core_vec_box with (D := Rabs pa + Rabs pb + Rabs pc) (E := RN (rabs4 a b c t * g)) (err1 := rerr1 pa pb pc t1 g); try assumption.
   Qed.
-  (** *** (S) with an input box, points: PARTIAL, factor 4/3 (1+3u) *)
-  Lemma pt_box_real : forall a b c pa pb pc t1 t g d, safe a -> safe b -> safe c -> safe pa -> safe pb -> safe pc ->
-    format t1 -> format t -> gok g -> Rabs d <= Rabs pa + Rabs pb + Rabs pc ->
-    3 * Rabs (rrow4 a b c t - (a + b + c + t + d)) <= 4 * (1 + 3 * uro) * rerr a b c pa pb pc t1 t g.
+  (** *** (S) with an input box, points: PARTIAL, factor (1+4u) *)
+  Lemma pt_box_real : forall a b c pa pb pc t1 t g g2 d, safe a -> safe b -> safe c -> safe pa -> safe pb -> safe pc ->
+    format t1 -> format t -> gok g -> gok4 g2 -> Rabs d <= Rabs pa + Rabs pb + Rabs pc ->
+    Rabs (rrow4 a b c t - (a + b + c + t + d)) <= (1 + 4 * uro) * rerr a b c pa pb pc t1 t g g2.
   Proof.
-    intros a b c pa pb pc t1 t g d Ha Hb Hc Hpa Hpb Hpc Ft1 Ft Hg Hd. pose proof uro_range as Hu.
-    pose proof (pt_real a b c t g Ha Hb Hc Ft Hg) as V.
+    intros a b c pa pb pc t1 t g g2 d Ha Hb Hc Hpa Hpb Hpc Ft1 Ft Hg Hg2 Hd. pose proof uro_range as Hu.
+    pose proof (pt_real a b c t g2 Ha Hb Hc Ft Hg2) as V.
     pose proof (box_D pa pb pc t1 g Hpa Hpb Hpc Ft1 Hg) as D.
-    pose proof (rerr1_pos pa pb pc t1 g Hg) as P1. pose proof (E_pos a b c t g Hg) as P2.
-    destruct (sum_pos_facts _ _ (format_RN (rabs4 pa pb pc t1 * rG g)) (format_RN (rabs4 a b c t * g)) P1 P2) as (_ & _ & _ & s3 & _).
+    pose proof (rerr1_pos pa pb pc t1 g Hg) as P1. pose proof (E_pos4 a b c t g2 Hg2) as P2.
+    destruct (sum_pos_facts _ _ (format_RN (rabs4 pa pb pc t1 * rG g)) (format_RN (rabs4 a b c t * g2)) P1 P2) as (_ & _ & _ & s3 & _).
     replace (rrow4 a b c t - (a + b + c + t + d)) with ((- d) + (rrow4 a b c t - (a + b + c + t))) by ring.
-    apply Rle_trans with (3 * (Rabs d + Rabs (rrow4 a b c t - (a + b + c + t)))).
-    apply Rmult_le_compat_l. lra. apply Rle_trans with (1 := Rabs_triang _ _). rewrite Rabs_Ropp. lra.
-    apply core_pt_box with (D := Rabs pa + Rabs pb + Rabs pc) (E := RN (rabs4 a b c t * g)) (err1 := rerr1 pa pb pc t1 g); try assumption.
+    apply Rle_trans with (1 := Rabs_triang _ _). rewrite Rabs_Ropp.
+    apply core_vec_box with (D := Rabs pa + Rabs pb + Rabs pc) (E := RN (rabs4 a b c t * g2)) (err1 := rerr1 pa pb pc t1 g); try assumption.
   Qed.
 
   (** *** (M): upper bounds on what is reported *)
@@ -698,14 +722,30 @@ Section C16_float.
     apply core_M with (g := g) (S3 := rabs4 a b c t); try assumption; try lra.
     pose proof (Rabs_pos a). pose proof (Rabs_pos b). pose proof (Rabs_pos c). lra.
   Qed.
-  Lemma err_upper : forall a b c pa pb pc t1 t g, safe a -> safe b -> safe c -> safe pa -> safe pb -> safe pc ->
-    safe t1 -> format t1 -> safe t -> format t -> gok g ->
-    rerr a b c pa pb pc t1 t g <= (1 + 9 * uro) *
-      ((1 + gamma3) * (Rabs pa + Rabs pb + Rabs pc + Rabs t1) + gamma3 * (Rabs a + Rabs b + Rabs c + Rabs t)).
+  Lemma E_upper4 : forall a b c t g, safe a -> safe b -> safe c -> safe t -> format t -> gok4 g ->
+    RN (rabs4 a b c t * g) <= (1 + uro) ^ 6 * (gamma4 * (Rabs a + Rabs b + Rabs c + Rabs t)).
   Proof.
-    intros a b c pa pb pc t1 t g Ha Hb Hc Hpa Hpb Hpc Ht1 Ft1 Ht Ft Hg. pose proof uro_range as Hu. pose proof gamma3_pos as Hgm.
+    intros a b c t g Ha Hb Hc Ht Ft Hg. pose proof uro_range as Hu. pose proof gamma4_pos as Hgm.
+    pose proof (gok4_low g Hg) as Hg2. pose proof Hg as (_ & _ & Hg5).
+    pose proof (safe_normal _ Ha) as Na. pose proof (safe_normal _ Hb) as Nb. pose proof (safe_normal _ Hc) as Nc.
+    destruct (chain_pos a b c t) as (HA & HB & HC & HT & H1 & H2 & H3).
+    pose proof (chain_S3_up a b c t Na Nb Nc Ft) as Up.
+    assert (Hs3 : rabs4 a b c t = 0 \/ tiny <= rabs4 a b c t).
+    { destruct (rabs4_cases a b c t Ha Hb Hc Ft) as [(-> & -> & ->)|Hbig]; [|right; exact Hbig].
+      unfold rabs4. rewrite rabs3_0, Rplus_0_l, (RN_id _ (format_abs t Ft)).
+      destruct Ht as [->|Ht]. left. apply Rabs_R0. right. exact Ht. }
+    destruct (scale_facts (rabs4 a b c t) g H3 Hs3 Hg2) as (_ & _ & e2).
+    apply core_M with (g := g) (S3 := rabs4 a b c t); try assumption; try lra.
+    pose proof (Rabs_pos a). pose proof (Rabs_pos b). pose proof (Rabs_pos c). lra.
+  Qed.
+  Lemma err_upper : forall a b c pa pb pc t1 t g g2 gm2, safe pa -> safe pb -> safe pc ->
+    safe t1 -> format t1 -> gok g -> 0 <= gm2 -> 0 <= RN (rabs4 a b c t * g2) ->
+    RN (rabs4 a b c t * g2) <= (1 + uro) ^ 6 * (gm2 * (Rabs a + Rabs b + Rabs c + Rabs t)) ->
+    rerr a b c pa pb pc t1 t g g2 <= (1 + 9 * uro) *
+      ((1 + gamma3) * (Rabs pa + Rabs pb + Rabs pc + Rabs t1) + gm2 * (Rabs a + Rabs b + Rabs c + Rabs t)).
+  Proof.
+    intros a b c pa pb pc t1 t g g2 gm2 Hpa Hpb Hpc Ht1 Ft1 Hg Hgm2 P2 EU. pose proof uro_range as Hu. pose proof gamma3_pos as Hgm.
     destruct (G_facts g Hg) as (FG & G1 & G2 & G3 & Hg0). pose proof Hg as (_ & _ & Hg5).
-    pose proof (E_upper a b c t g Ha Hb Hc Ht Ft Hg) as EU.
     pose proof (safe_normal _ Hpa) as Na. pose proof (safe_normal _ Hpb) as Nb. pose proof (safe_normal _ Hpc) as Nc.
     destruct (chain_pos pa pb pc t1) as (HA & HB & HC & HT & H1 & H2 & H3).
     pose proof (chain_S3_up pa pb pc t1 Na Nb Nc Ft1) as Up.
@@ -714,15 +754,15 @@ Section C16_float.
       unfold rabs4. rewrite rabs3_0, Rplus_0_l, (RN_id _ (format_abs t1 Ft1)).
       destruct Ht1 as [->|Ht1]. left. apply Rabs_R0. right. exact Ht1. }
     destruct (scale_facts (rabs4 pa pb pc t1) (rG g) H3 Hs3 ltac:(lra)) as (_ & _ & e2).
-    pose proof (rerr1_pos pa pb pc t1 g Hg) as P1. pose proof (E_pos a b c t g Hg) as P2.
-    destruct (sum_pos_facts _ _ (format_RN (rabs4 pa pb pc t1 * rG g)) (format_RN (rabs4 a b c t * g)) P1 P2) as (_ & _ & _ & _ & s4).
+    pose proof (rerr1_pos pa pb pc t1 g Hg) as P1.
+    destruct (sum_pos_facts _ _ (format_RN (rabs4 pa pb pc t1 * rG g)) (format_RN (rabs4 a b c t * g2)) P1 P2) as (_ & _ & _ & _ & s4).
     assert (Q1 : 0 <= Rabs pa + Rabs pb + Rabs pc + Rabs t1).
     { pose proof (Rabs_pos pa). pose proof (Rabs_pos pb). pose proof (Rabs_pos pc). lra. }
     assert (Q2 : 0 <= Rabs a + Rabs b + Rabs c + Rabs t).
     { pose proof (Rabs_pos a). pose proof (Rabs_pos b). pose proof (Rabs_pos c). pose proof (Rabs_pos t). lra. }
     assert (E1 : rerr1 pa pb pc t1 g <= (1 + uro) ^ 7 * ((1 + gamma3) * (Rabs pa + Rabs pb + Rabs pc + Rabs t1))).
     { apply core_M1 with (g := g) (G := rG g) (P3 := rabs4 pa pb pc t1); try assumption; try lra. }
-    apply core_M2 with (err1 := rerr1 pa pb pc t1 g) (E := RN (rabs4 a b c t * g)); try assumption; try lra.
+    apply core_M2 with (err1 := rerr1 pa pb pc t1 g) (E := RN (rabs4 a b c t * g2)); try assumption; try lra.
   Qed.
 
   (** ** From floats to the real-number expressions above *)
@@ -850,7 +890,7 @@ Section C16_float.
   Proof.
     apply Rle_trans with (bpow radix2 9). simpl. lra. apply bpow_le. pose proof emax_big. lia.
   Qed.
-  Lemma Bofz_small : forall z, (0 <= z <= 3)%Z ->
+  Lemma Bofz_small : forall z, (0 <= z <= 4)%Z ->
     fin (Bofz prec emax Hprec Hmax z) /\ B2R (Bofz prec emax Hprec Hmax z) = IZR z.
   Proof.
     intros z Hz. unfold Bofz.
@@ -858,7 +898,7 @@ Section C16_float.
     destruct (Bnorm_exact z 0) as (F & V).
     - apply format_int. pose proof pow_prec_big. lia. pose proof emax_big. lia.
     - rewrite E. pose proof emax_pow. rewrite Rabs_pos_eq by (apply IZR_le; lia).
-      apply Rle_lt_trans with 3%R. apply IZR_le. lia. lra.
+      apply Rle_lt_trans with 4%R. apply IZR_le. lia. lra.
     - split. exact F. rewrite V. exact E.
   Qed.
   Lemma Beps_spec : fin (Beps prec emax Hprec Hmax) /\ B2R (Beps prec emax Hprec Hmax) = (2 * uro)%R.
@@ -939,6 +979,72 @@ Section C16_float.
   Qed.
   Lemma ngamma3_gok : gok (B2R (ngamma 3)).
   Proof. destruct ngamma3_spec as (_ & ->). apply gok_RN_gamma3. Qed.
+  Lemma format_4uro : format (4 * uro)%R.
+  Proof.
+    replace (4 * uro)%R with (F2R (Float radix2 4 (- prec))) by (unfold F2R, uro; simpl; ring).
+    apply format_int. pose proof pow_prec_big. simpl. lia. pose proof emax_big. lia.
+  Qed.
+  Lemma format_1m4uro : format (1 - 4 * uro)%R.
+  Proof.
+    replace (1 - 4 * uro)%R with (F2R (Float radix2 (2 ^ prec - 4) (- prec))).
+    - apply format_int. pose proof pow_prec_big. lia. pose proof emax_big. lia.
+    - unfold F2R, uro. simpl. rewrite minus_IZR, (IZR_Zpower radix2) by lia.
+      rewrite Rmult_minus_distr_r, <- bpow_plus. replace (prec + - prec)%Z with 0%Z by ring. simpl. ring.
+  Qed.
+  Lemma normal_gamma4 : normal gamma4.
+  Proof.
+    right. pose proof gamma4_pos. pose proof uro_range as Hu. rewrite Rabs_pos_eq by lra.
+    apply Rle_trans with (2 * uro)%R.
+    - unfold uro. replace 2%R with (bpow radix2 1) by reflexivity. rewrite <- bpow_plus. apply bpow_le.
+      unfold Prec_lt_emax in Hmax. lia.
+    - pose proof gamma4_eq. nra.
+  Qed.
+  Lemma gok4_RN_gamma4 : gok4 (RN gamma4).
+  Proof.
+    pose proof uro_range as Hu. pose proof gamma4_pos as Hg. pose proof gamma4_eq as He.
+    destruct (prod_facts gamma4 normal_gamma4) as (_ & f1 & f2 & _).
+    assert (Hr : (0 <= RN gamma4)%R) by (apply RN_nonneg; lra).
+    rewrite (Rabs_pos_eq (RN gamma4)) in f1, f2 by exact Hr. rewrite (Rabs_pos_eq gamma4) in f1, f2 by lra.
+    split. apply format_RN. split; [|exact f2].
+    apply Rle_trans with (gamma4 * (1 - 4 * uro))%R. lra.
+    replace (RN gamma4 * ((1 + uro) * (1 - 4 * uro)))%R with (((1 + uro) * RN gamma4) * (1 - 4 * uro))%R by ring.
+    apply Rmult_le_compat_r; lra.
+  Qed.
+  Lemma gamma4_small : (gamma4 <= / 32)%R.
+  Proof.
+    pose proof uro_range as Hu. unfold gamma4. apply Rmult_le_reg_r with (1 - 4 * uro)%R. lra.
+    unfold Rdiv. rewrite Rmult_assoc, Rinv_l by lra. lra.
+  Qed.
+
+  (** the [gamma!(4)] macro *)
+  Lemma ngamma4_spec : fin (ngamma 4) /\ B2R (ngamma 4) = RN gamma4.
+  Proof.
+    pose proof uro_range as Hu. pose proof emax_pow as Hemax.
+    destruct Beps_spec as (Fe & Ve).
+    destruct (Bofz_small 2 ltac:(lia)) as (F2 & V2). destruct (Bofz_small 4 ltac:(lia)) as (F3 & V3).
+    destruct (Bofz_small 1 ltac:(lia)) as (F1 & V1).
+    unfold ngamma. cbv zeta.
+    change (@neps bf NB16) with (Beps prec emax Hprec Hmax). change (@n2 bf NB16) with (Bofz prec emax Hprec Hmax 2).
+    change (@nofZ bf NB16 4) with (Bofz prec emax Hprec Hmax 4). change (@n1 bf NB16) with (Bofz prec emax Hprec Hmax 1).
+    set (e := Beps prec emax Hprec Hmax) in *. set (b1 := Bofz prec emax Hprec Hmax 1) in *.
+    set (b2 := Bofz prec emax Hprec Hmax 2) in *. set (b3 := Bofz prec emax Hprec Hmax 4) in *.
+    assert (Q1 : (B2R e / B2R b2)%R = uro) by (rewrite Ve, V2; field).
+    destruct (div_fwd e b2 Fe F2) as (Fh & Vh). rewrite V2; lra.
+    { rewrite Q1, (RN_id _ format_uro), Rabs_pos_eq; lra. }
+    rewrite Q1, (RN_id _ format_uro) in Vh.
+    destruct (mul_fwd (e / b2) b3 Fh F3) as (Fn & Vn).
+    { rewrite Vh, V3. replace (uro * 4)%R with (4 * uro)%R by ring. rewrite (RN_id _ format_4uro), Rabs_pos_eq; lra. }
+    rewrite Vh, V3 in Vn. replace (uro * 4)%R with (4 * uro)%R in Vn by ring. rewrite (RN_id _ format_4uro) in Vn.
+    destruct (sub_fwd b1 (e / b2 * b3) F1 Fn) as (Fd & Vd).
+    { rewrite V1, Vn, (RN_id _ format_1m4uro), Rabs_pos_eq; lra. }
+    rewrite V1, Vn, (RN_id _ format_1m4uro) in Vd.
+    destruct (div_fwd (e / b2 * b3) (b1 - e / b2 * b3) Fn Fd) as (Fg & Vg). rewrite Vd; lra.
+    { rewrite Vn, Vd. fold gamma4. destruct gok4_RN_gamma4 as (_ & _ & Hup). pose proof gamma4_small. pose proof gamma4_pos.
+      rewrite Rabs_pos_eq by (apply RN_nonneg; lra). nra. }
+    rewrite Vn, Vd in Vg. fold gamma4 in Vg. split; assumption.
+  Qed.
+  Lemma ngamma4_gok : gok4 (B2R (ngamma 4)).
+  Proof. destruct ngamma4_spec as (_ & ->). apply gok4_RN_gamma4. Qed.
   Lemma one_plus_gamma_spec : fin (n1 + ngamma 3) /\ B2R (n1 + ngamma 3) = rG (B2R (ngamma 3)).
   Proof.
     destruct ngamma3_spec as (Fg & Vg). destruct (Bofz_small 1 ltac:(lia)) as (F1 & V1).
@@ -967,91 +1073,12 @@ Section C16_float.
     (safe (m20 m * vx p) /\ safe (m21 m * vy p) /\ safe (m22 m * vz p)).
   Definition safe_trans (m : M4 R) : Prop := safe (m03 m) /\ safe (m13 m) /\ safe (m23 m).
 
-  Section Comp.
-    Variables m0 m1 m2 m3 x y z : bf.
-    Let a := (B2R m0 * B2R x)%R.
-    Let b := (B2R m1 * B2R y)%R.
-    Let c := (B2R m2 * B2R z)%R.
-    Let t := B2R m3.
-    Let g := B2R (@ngamma bf NB16 3).
-    Let err2 : bf := fabs4 m0 m1 m2 m3 x y z * ngamma 3.
-    Hypothesis Sa : safe a.
-    Hypothesis Sb : safe b.
-    Hypothesis Sc : safe c.
+  Lemma format_0 : format 0.
+  Proof. apply generic_format_0. Qed.
+  Lemma safe_0 : safe 0.
+  Proof. left. reflexivity. Qed.
 
-    Lemma comp_err2 : fin err2 -> fin (fabs4 m0 m1 m2 m3 x y z) /\ B2R err2 = RN (rabs4 a b c t * g)%R.
-    Proof.
-      intros H. destruct (mul_inv _ _ H) as (F & _ & V). split. exact F.
-      destruct (rows_ok m0 m1 m2 m3 x y z F) as (_ & E & _). unfold err2. rewrite V, E. reflexivity.
-    Qed.
-    Lemma comp_vec : fin err2 ->
-      fin (frow3 m0 m1 m2 x y z) /\ (Rabs (B2R (frow3 m0 m1 m2 x y z) - (a + b + c)) <= B2R err2)%R.
-    Proof.
-      intros H. destruct (comp_err2 H) as (F & V).
-      destruct (rows_ok m0 m1 m2 m3 x y z F) as (_ & _ & (F3 & V3) & _). split. exact F3.
-      rewrite V, V3. apply vec_real; try assumption. apply format_B2R. apply ngamma3_gok.
-    Qed.
-    Lemma comp_pt : fin err2 ->
-      fin (frow4 m0 m1 m2 m3 x y z) /\
-      (3 * Rabs (B2R (frow4 m0 m1 m2 m3 x y z) - (a + b + c + t)) <= 4 * (1 + uro) * B2R err2)%R.
-    Proof.
-      intros H. destruct (comp_err2 H) as (F & V).
-      destruct (rows_ok m0 m1 m2 m3 x y z F) as (_ & _ & _ & (F4 & V4)). split. exact F4.
-      rewrite V, V4. apply pt_real; try assumption. apply format_B2R. apply ngamma3_gok.
-    Qed.
-    Lemma comp_M : safe t -> fin err2 ->
-      (B2R err2 <= 2 * (gamma3 * (Rabs a + Rabs b + Rabs c + Rabs t)))%R.
-    Proof.
-      intros St H. destruct (comp_err2 H) as (F & V). rewrite V.
-      apply Rle_trans with (1 := E_upper a b c t g Sa Sb Sc St (format_B2R _) ngamma3_gok).
-      pose proof uro_range as Hu. pose proof gamma3_pos.
-      assert (0 <= gamma3 * (Rabs a + Rabs b + Rabs c + Rabs t))%R.
-      { apply Rmult_le_pos. lra. pose proof (Rabs_pos a). pose proof (Rabs_pos b). pose proof (Rabs_pos c). pose proof (Rabs_pos t). lra. }
-      apply Rmult_le_compat_r. assumption.
-      assert ((1 + uro) ^ 6 <= (1 + /256) ^ 6)%R by (apply pow_incr; lra). lra.
-    Qed.
-
-    (** the propagated part, for an input error vector (ex, ey, ez) *)
-    Variables ex ey ez : bf.
-    Let pa := (B2R m0 * B2R ex)%R.
-    Let pb := (B2R m1 * B2R ey)%R.
-    Let pc := (B2R m2 * B2R ez)%R.
-    Hypothesis Spa : safe pa.
-    Hypothesis Spb : safe pb.
-    Hypothesis Spc : safe pc.
-    Let err : bf := fabs4 m0 m1 m2 m3 ex ey ez * (n1 + ngamma 3) + err2.
-    Lemma comp_err : fin err -> fin err2 /\ B2R err = rerr a b c pa pb pc t t g.
-    Proof.
-      intros H. destruct (add_inv _ _ H) as (F1 & F2 & V). split. exact F2.
-      destruct (comp_err2 F2) as (_ & V2). destruct (mul_inv _ _ F1) as (Fe & _ & V1).
-      destruct (rows_ok m0 m1 m2 m3 ex ey ez Fe) as (_ & E & _). destruct one_plus_gamma_spec as (_ & VG).
-      unfold err. rewrite V, V1, V2, E, VG. reflexivity.
-    Qed.
-    Lemma comp_vec_box : fin err -> forall d : R, (Rabs d <= Rabs pa + Rabs pb + Rabs pc)%R ->
-      fin (frow3 m0 m1 m2 x y z) /\
-      (Rabs (B2R (frow3 m0 m1 m2 x y z) - (a + b + c + d)) <= (1 + 4 * uro) * B2R err)%R.
-    Proof.
-      intros H d Hd. destruct (comp_err H) as (F2 & V). destruct (comp_err2 F2) as (F & _).
-      destruct (rows_ok m0 m1 m2 m3 x y z F) as (_ & _ & (F3 & V3) & _). split. exact F3.
-      rewrite V, V3. apply vec_box_real; try assumption; try apply format_B2R. apply ngamma3_gok.
-    Qed.
-    Lemma comp_pt_box : fin err -> forall d : R, (Rabs d <= Rabs pa + Rabs pb + Rabs pc)%R ->
-      fin (frow4 m0 m1 m2 m3 x y z) /\
-      (3 * Rabs (B2R (frow4 m0 m1 m2 m3 x y z) - (a + b + c + t + d)) <= 4 * (1 + 3 * uro) * B2R err)%R.
-    Proof.
-      intros H d Hd. destruct (comp_err H) as (F2 & V). destruct (comp_err2 F2) as (F & _).
-      destruct (rows_ok m0 m1 m2 m3 x y z F) as (_ & _ & _ & (F4 & V4)). split. exact F4.
-      rewrite V, V4. apply pt_box_real; try assumption; try apply format_B2R. apply ngamma3_gok.
-    Qed.
-    Lemma comp_M_prop : safe t -> fin err ->
-      (B2R err <= (1 + 9 * uro) * ((1 + gamma3) * (Rabs pa + Rabs pb + Rabs pc + Rabs t) + gamma3 * (Rabs a + Rabs b + Rabs c + Rabs t)))%R.
-    Proof.
-      intros St H. destruct (comp_err H) as (_ & V). rewrite V.
-      apply err_upper; try assumption; try apply format_B2R. apply ngamma3_gok.
-    Qed.
-  End Comp.
-
-  (** the proposed translation-free propagated part *)
+  (** the translation-free propagated part ([mul3x3_abs]) *)
   Definition fabs3 (m0 m1 m2 x y z : bf) : bf := nabs (m0 * x) + nabs (m1 * y) + nabs (m2 * z).
   Lemma fabs3_ok : forall m0 m1 m2 x y z : bf, fin (fabs3 m0 m1 m2 x y z) ->
     B2R (fabs3 m0 m1 m2 x y z) = rabs4 (B2R m0 * B2R x) (B2R m1 * B2R y) (B2R m2 * B2R z) 0.
@@ -1063,70 +1090,162 @@ Section C16_float.
     destruct (mul_inv _ _ Fa) as (_ & _ & Va). destruct (mul_inv _ _ Fb) as (_ & _ & Vb). destruct (mul_inv _ _ Fc) as (_ & _ & Vc).
     rewrite V2, V1, VA, VB, VC, Va, Vb, Vc. reflexivity.
   Qed.
-  Section CompFixed.
-    Variables m0 m1 m2 m3 x y z ex ey ez : bf.
+  Section Comp.
+    Variables m0 m1 m2 m3 x y z : bf.
     Let a := (B2R m0 * B2R x)%R.
     Let b := (B2R m1 * B2R y)%R.
     Let c := (B2R m2 * B2R z)%R.
     Let t := B2R m3.
-    Let g := B2R (@ngamma bf NB16 3).
-    Let pa := (B2R m0 * B2R ex)%R.
-    Let pb := (B2R m1 * B2R ey)%R.
-    Let pc := (B2R m2 * B2R ez)%R.
-    Let err2 : bf := fabs4 m0 m1 m2 m3 x y z * ngamma 3.
-    Let errf : bf := fabs3 m0 m1 m2 ex ey ez * (n1 + ngamma 3) + err2.
+    Let g3 := B2R (@ngamma bf NB16 3).
+    Let g4 := B2R (@ngamma bf NB16 4).
+    (** what a vector / a point function reports for this row *)
+    Let errv : bf := fabs4 m0 m1 m2 m3 x y z * ngamma 3.
+    Let errp : bf := fabs4 m0 m1 m2 m3 x y z * ngamma 4.
     Hypothesis Sa : safe a.
     Hypothesis Sb : safe b.
     Hypothesis Sc : safe c.
+
+    Lemma comp_errv : fin errv -> fin (fabs4 m0 m1 m2 m3 x y z) /\ B2R errv = RN (rabs4 a b c t * g3)%R.
+    Proof.
+      intros H. destruct (mul_inv _ _ H) as (F & _ & V). split. exact F.
+      destruct (rows_ok m0 m1 m2 m3 x y z F) as (_ & E & _). unfold errv. rewrite V, E. reflexivity.
+    Qed.
+    Lemma comp_errp : fin errp -> fin (fabs4 m0 m1 m2 m3 x y z) /\ B2R errp = RN (rabs4 a b c t * g4)%R.
+    Proof.
+      intros H. destruct (mul_inv _ _ H) as (F & _ & V). split. exact F.
+      destruct (rows_ok m0 m1 m2 m3 x y z F) as (_ & E & _). unfold errp. rewrite V, E. reflexivity.
+    Qed.
+    Lemma comp_vec : fin errv ->
+      fin (frow3 m0 m1 m2 x y z) /\ (Rabs (B2R (frow3 m0 m1 m2 x y z) - (a + b + c)) <= B2R errv)%R.
+    Proof.
+      intros H. destruct (comp_errv H) as (F & V).
+      destruct (rows_ok m0 m1 m2 m3 x y z F) as (_ & _ & (F3 & V3) & _). split. exact F3.
+      rewrite V, V3. apply vec_real; try assumption. apply format_B2R. apply ngamma3_gok.
+    Qed.
+    Lemma comp_pt : fin errp ->
+      fin (frow4 m0 m1 m2 m3 x y z) /\
+      (Rabs (B2R (frow4 m0 m1 m2 m3 x y z) - (a + b + c + t)) <= B2R errp)%R.
+    Proof.
+      intros H. destruct (comp_errp H) as (F & V).
+      destruct (rows_ok m0 m1 m2 m3 x y z F) as (_ & _ & _ & (F4 & V4)). split. exact F4.
+      rewrite V, V4. apply pt_real; try assumption. apply format_B2R. apply ngamma4_gok.
+    Qed.
+    Lemma pow6_le2 : ((1 + uro) ^ 6 * (135 / 100) <= 2)%R.
+    Proof.
+      pose proof uro_range as Hu.
+      assert ((1 + uro) ^ 6 <= (1 + /256) ^ 6)%R by (apply pow_incr; lra). lra.
+    Qed.
+    Lemma comp_M_vec : safe t -> fin errv ->
+      (B2R errv <= 2 * (gamma3 * (Rabs a + Rabs b + Rabs c + Rabs t)))%R.
+    Proof.
+      intros St H. destruct (comp_errv H) as (F & V). rewrite V.
+      apply Rle_trans with (1 := E_upper a b c t g3 Sa Sb Sc St (format_B2R _) ngamma3_gok).
+      pose proof uro_range as Hu. pose proof gamma3_pos. pose proof pow6_le2.
+      assert (0 <= gamma3 * (Rabs a + Rabs b + Rabs c + Rabs t))%R.
+      { apply Rmult_le_pos. lra. pose proof (Rabs_pos a). pose proof (Rabs_pos b). pose proof (Rabs_pos c). pose proof (Rabs_pos t). lra. }
+      apply Rmult_le_compat_r. assumption. assert (0 <= (1 + uro) ^ 6)%R by (apply pow_le; lra). lra.
+    Qed.
+    (** gamma(4) is 4/3 of the yardstick gamma(3): still within the factor 2 *)
+    Lemma E4_le : safe t -> (RN (rabs4 a b c t * g4) <= (1 + uro) ^ 6 * (gamma4 * (Rabs a + Rabs b + Rabs c + Rabs t)))%R.
+    Proof. intros St. exact (E_upper4 a b c t g4 Sa Sb Sc St (format_B2R _) ngamma4_gok). Qed.
+    Lemma comp_M_pt : safe t -> fin errp ->
+      (B2R errp <= 2 * (gamma3 * (Rabs a + Rabs b + Rabs c + Rabs t)))%R.
+    Proof.
+      intros St H. destruct (comp_errp H) as (F & V). rewrite V.
+      apply Rle_trans with (1 := E4_le St).
+      pose proof uro_range as Hu. pose proof gamma3_pos. pose proof gamma4_pos. pose proof gamma4_le. pose proof pow6_le2.
+      set (Q := (Rabs a + Rabs b + Rabs c + Rabs t)%R).
+      assert (HQ : (0 <= Q)%R) by (unfold Q; pose proof (Rabs_pos a); pose proof (Rabs_pos b); pose proof (Rabs_pos c); pose proof (Rabs_pos t); lra).
+      assert (P6 : (0 <= (1 + uro) ^ 6)%R) by (apply pow_le; lra).
+      apply Rle_trans with ((1 + uro) ^ 6 * (135 / 100 * gamma3 * Q))%R.
+      apply Rmult_le_compat_l. exact P6. apply Rmult_le_compat_r; lra.
+      replace ((1 + uro) ^ 6 * (135 / 100 * gamma3 * Q))%R with (((1 + uro) ^ 6 * (135 / 100)) * (gamma3 * Q))%R by ring.
+      apply Rmult_le_compat_r. apply Rmult_le_pos; lra. lra.
+    Qed.
+
+    (** the propagated part, for an input error vector (ex, ey, ez): linear part only *)
+    Variables ex ey ez : bf.
+    Let pa := (B2R m0 * B2R ex)%R.
+    Let pb := (B2R m1 * B2R ey)%R.
+    Let pc := (B2R m2 * B2R ez)%R.
     Hypothesis Spa : safe pa.
     Hypothesis Spb : safe pb.
     Hypothesis Spc : safe pc.
-    Lemma format_0 : format 0.
-    Proof. apply generic_format_0. Qed.
-    Lemma safe_0 : safe 0.
-    Proof. left. reflexivity. Qed.
-    Lemma compf_err : fin errf -> fin err2 /\ B2R errf = rerr a b c pa pb pc 0 t g.
+    Let perrv : bf := fabs3 m0 m1 m2 ex ey ez * (n1 + ngamma 3) + errv.
+    Let perrp : bf := fabs3 m0 m1 m2 ex ey ez * (n1 + ngamma 3) + errp.
+    Lemma comp_perrv : fin perrv -> fin errv /\ B2R perrv = rerr a b c pa pb pc 0 t g3 g3.
     Proof.
       intros H. destruct (add_inv _ _ H) as (F1 & F2 & V). split. exact F2.
-      destruct (comp_err2 m0 m1 m2 m3 x y z F2) as (_ & V2). destruct (mul_inv _ _ F1) as (Fe & _ & V1).
+      destruct (comp_errv F2) as (_ & V2). destruct (mul_inv _ _ F1) as (Fe & _ & V1).
       pose proof (fabs3_ok m0 m1 m2 ex ey ez Fe) as E. destruct one_plus_gamma_spec as (_ & VG).
-      unfold errf, err2 in *. rewrite V, V1, V2, E, VG. reflexivity.
+      unfold perrv, errv in *. rewrite V, V1, V2, E, VG. reflexivity.
     Qed.
-    Lemma compf_vec_box : fin errf -> forall d : R, (Rabs d <= Rabs pa + Rabs pb + Rabs pc)%R ->
-      fin (frow3 m0 m1 m2 x y z) /\
-      (Rabs (B2R (frow3 m0 m1 m2 x y z) - (a + b + c + d)) <= (1 + 4 * uro) * B2R errf)%R.
+    Lemma comp_perrp : fin perrp -> fin errp /\ B2R perrp = rerr a b c pa pb pc 0 t g3 g4.
     Proof.
-      intros H d Hd. destruct (compf_err H) as (F2 & V). destruct (comp_err2 m0 m1 m2 m3 x y z F2) as (F & _).
+      intros H. destruct (add_inv _ _ H) as (F1 & F2 & V). split. exact F2.
+      destruct (comp_errp F2) as (_ & V2). destruct (mul_inv _ _ F1) as (Fe & _ & V1).
+      pose proof (fabs3_ok m0 m1 m2 ex ey ez Fe) as E. destruct one_plus_gamma_spec as (_ & VG).
+      unfold perrp, errp in *. rewrite V, V1, V2, E, VG. reflexivity.
+    Qed.
+    Lemma comp_vec_box : fin perrv -> forall d : R, (Rabs d <= Rabs pa + Rabs pb + Rabs pc)%R ->
+      fin (frow3 m0 m1 m2 x y z) /\
+      (Rabs (B2R (frow3 m0 m1 m2 x y z) - (a + b + c + d)) <= (1 + 4 * uro) * B2R perrv)%R.
+    Proof.
+      intros H d Hd. destruct (comp_perrv H) as (F2 & V). destruct (comp_errv F2) as (F & _).
       destruct (rows_ok m0 m1 m2 m3 x y z F) as (_ & _ & (F3 & V3) & _). split. exact F3.
       rewrite V, V3. apply vec_box_real; try assumption; try apply format_B2R. apply format_0. apply ngamma3_gok.
     Qed.
-    Lemma compf_pt_box : fin errf -> forall d : R, (Rabs d <= Rabs pa + Rabs pb + Rabs pc)%R ->
+    Lemma comp_pt_box : fin perrp -> forall d : R, (Rabs d <= Rabs pa + Rabs pb + Rabs pc)%R ->
       fin (frow4 m0 m1 m2 m3 x y z) /\
-      (3 * Rabs (B2R (frow4 m0 m1 m2 m3 x y z) - (a + b + c + t + d)) <= 4 * (1 + 3 * uro) * B2R errf)%R.
+      (Rabs (B2R (frow4 m0 m1 m2 m3 x y z) - (a + b + c + t + d)) <= (1 + 4 * uro) * B2R perrp)%R.
     Proof.
-      intros H d Hd. destruct (compf_err H) as (F2 & V). destruct (comp_err2 m0 m1 m2 m3 x y z F2) as (F & _).
+      intros H d Hd. destruct (comp_perrp H) as (F2 & V). destruct (comp_errp F2) as (F & _).
       destruct (rows_ok m0 m1 m2 m3 x y z F) as (_ & _ & _ & (F4 & V4)). split. exact F4.
-      rewrite V, V4. apply pt_box_real; try assumption; try apply format_B2R. apply format_0. apply ngamma3_gok.
+      rewrite V, V4. apply pt_box_real; try assumption; try apply format_B2R. apply format_0. apply ngamma3_gok. apply ngamma4_gok.
     Qed.
-    (** (M) for the proposed code: within a factor 2 of the first-order worst case, whatever the translation *)
-    Lemma compf_M : safe t -> fin errf ->
-      (B2R errf <= 2 * (gamma3 * (Rabs a + Rabs b + Rabs c + Rabs t) + 1 * (Rabs pa + Rabs pb + Rabs pc)))%R.
+    (** (M): within a factor 2 of the first-order worst case, whatever the translation *)
+    Lemma M_final : forall gm2 E2 : R, (0 <= gm2)%R -> (gm2 <= 135 / 100 * gamma3)%R ->
+      let PP := (Rabs pa + Rabs pb + Rabs pc)%R in let QQ := (Rabs a + Rabs b + Rabs c + Rabs t)%R in
+      (E2 <= (1 + 9 * uro) * ((1 + gamma3) * (PP + Rabs 0) + gm2 * QQ) ->
+       E2 <= 2 * (gamma3 * QQ + 1 * PP))%R.
     Proof.
-      intros St H. destruct (compf_err H) as (_ & V). rewrite V.
-      apply Rle_trans with (1 := err_upper a b c pa pb pc 0 t g Sa Sb Sc Spa Spb Spc safe_0 format_0 St (format_B2R _) ngamma3_gok).
+      intros gm2 E2 Hg0 Hg PP QQ H. apply Rle_trans with (1 := H).
       rewrite Rabs_R0, Rplus_0_r. pose proof uro_range as Hu. pose proof gamma3_pos. pose proof gamma3_small.
-      assert (P : (0 <= Rabs pa + Rabs pb + Rabs pc)%R) by (pose proof (Rabs_pos pa); pose proof (Rabs_pos pb); pose proof (Rabs_pos pc); lra).
-      assert (Q : (0 <= Rabs a + Rabs b + Rabs c + Rabs t)%R) by (pose proof (Rabs_pos a); pose proof (Rabs_pos b); pose proof (Rabs_pos c); pose proof (Rabs_pos t); lra).
-      set (PP := (Rabs pa + Rabs pb + Rabs pc)%R) in *. set (QQ := (Rabs a + Rabs b + Rabs c + Rabs t)%R) in *.
+      assert (P : (0 <= PP)%R) by (unfold PP; pose proof (Rabs_pos pa); pose proof (Rabs_pos pb); pose proof (Rabs_pos pc); lra).
+      assert (Q : (0 <= QQ)%R) by (unfold QQ; pose proof (Rabs_pos a); pose proof (Rabs_pos b); pose proof (Rabs_pos c); pose proof (Rabs_pos t); lra).
       assert (C1 : ((1 + 9 * uro) * (1 + gamma3) <= 2)%R) by nra.
       assert (K1 : ((1 + 9 * uro) * ((1 + gamma3) * PP) <= 2 * PP)%R).
       { replace ((1 + 9 * uro) * ((1 + gamma3) * PP))%R with (((1 + 9 * uro) * (1 + gamma3)) * PP)%R by ring.
         apply Rmult_le_compat_r; lra. }
       assert (K4 : (0 <= gamma3 * QQ)%R) by (apply Rmult_le_pos; lra).
-      assert (K2 : ((1 + 9 * uro) * (gamma3 * QQ) <= 2 * (gamma3 * QQ))%R) by (apply Rmult_le_compat_r; lra).
+      assert (K3 : (gm2 * QQ <= 135 / 100 * (gamma3 * QQ))%R).
+      { replace (135 / 100 * (gamma3 * QQ))%R with ((135 / 100 * gamma3) * QQ)%R by ring. apply Rmult_le_compat_r; lra. }
+      assert (K5 : (0 <= gm2 * QQ)%R) by (apply Rmult_le_pos; lra).
+      assert (K2 : ((1 + 9 * uro) * (gm2 * QQ) <= 2 * (gamma3 * QQ))%R).
+      { apply Rle_trans with ((1 + 9 * uro) * (135 / 100 * (gamma3 * QQ)))%R. apply Rmult_le_compat_l; lra.
+        replace ((1 + 9 * uro) * (135 / 100 * (gamma3 * QQ)))%R with (((1 + 9 * uro) * (135 / 100)) * (gamma3 * QQ))%R by ring.
+        apply Rmult_le_compat_r; lra. }
       lra.
     Qed.
-  End CompFixed.
+    Lemma comp_M_perrv : safe t -> fin perrv ->
+      (B2R perrv <= 2 * (gamma3 * (Rabs a + Rabs b + Rabs c + Rabs t) + 1 * (Rabs pa + Rabs pb + Rabs pc)))%R.
+    Proof.
+      intros St H. destruct (comp_perrv H) as (F2 & V). rewrite V. pose proof gamma3_pos.
+      apply (M_final gamma3). lra. lra.
+      apply err_upper; try assumption. apply safe_0. apply format_0. apply ngamma3_gok. lra.
+      apply E_pos. apply ngamma3_gok.
+      exact (E_upper a b c t g3 Sa Sb Sc St (format_B2R _) ngamma3_gok).
+    Qed.
+    Lemma comp_M_perrp : safe t -> fin perrp ->
+      (B2R perrp <= 2 * (gamma3 * (Rabs a + Rabs b + Rabs c + Rabs t) + 1 * (Rabs pa + Rabs pb + Rabs pc)))%R.
+    Proof.
+      intros St H. destruct (comp_perrp H) as (F2 & V). rewrite V. pose proof gamma4_pos.
+      apply (M_final gamma4). lra. apply gamma4_le.
+      apply err_upper; try assumption. apply safe_0. apply format_0. apply ngamma3_gok. lra.
+      apply E_pos4. apply ngamma4_gok.
+      exact (E4_le St).
+    Qed.
+  End Comp.
 
   (** the bottom row of an affine matrix evaluates to exactly 1, so the division by [w] is exact *)
   Lemma w_one : forall m30 m31 m32 m33 x y z : bf,
@@ -1181,27 +1300,17 @@ Section C16_float.
   Proof. reflexivity. Qed.
   Lemma pt_we_eq : forall m p, pt_with_error m p =
     (mkV3 (row4 m 0 p / row4 m 3 p) (row4 m 1 p / row4 m 3 p) (row4 m 2 p / row4 m 3 p),
-     mkV3 (rowa m 0 p * ngamma 3) (rowa m 1 p * ngamma 3) (rowa m 2 p * ngamma 3)).
+     mkV3 (rowa m 0 p * ngamma 4) (rowa m 1 p * ngamma 4) (rowa m 2 p * ngamma 4)).
   Proof. reflexivity. Qed.
   Lemma vec_pe_eq : forall m v e, vec_propagate_error m v e =
-    (mkV3 (row3 m 0 v) (row3 m 1 v) (row3 m 2 v),
-     mkV3 (rowa m 0 e * (n1 + ngamma 3) + rowa m 0 v * ngamma 3) (rowa m 1 e * (n1 + ngamma 3) + rowa m 1 v * ngamma 3)
-          (rowa m 2 e * (n1 + ngamma 3) + rowa m 2 v * ngamma 3)).
-  Proof. reflexivity. Qed.
-  Lemma pt_pe_eq : forall m p e, pt_propagate_error m p e =
-    (mkV3 (row4 m 0 p / row4 m 3 p) (row4 m 1 p / row4 m 3 p) (row4 m 2 p / row4 m 3 p),
-     mkV3 (rowa m 0 e * (n1 + ngamma 3) + rowa m 0 p * ngamma 3) (rowa m 1 e * (n1 + ngamma 3) + rowa m 1 p * ngamma 3)
-          (rowa m 2 e * (n1 + ngamma 3) + rowa m 2 p * ngamma 3)).
-  Proof. reflexivity. Qed.
-  Lemma vec_pf_eq : forall m v e, vec_propagate_error_fixed m v e =
     (mkV3 (row3 m 0 v) (row3 m 1 v) (row3 m 2 v),
      mkV3 (rowl m 0 e * (n1 + ngamma 3) + rowa m 0 v * ngamma 3) (rowl m 1 e * (n1 + ngamma 3) + rowa m 1 v * ngamma 3)
           (rowl m 2 e * (n1 + ngamma 3) + rowa m 2 v * ngamma 3)).
   Proof. reflexivity. Qed.
-  Lemma pt_pf_eq : forall m p e, pt_propagate_error_fixed m p e =
+  Lemma pt_pe_eq : forall m p e, pt_propagate_error m p e =
     (mkV3 (row4 m 0 p / row4 m 3 p) (row4 m 1 p / row4 m 3 p) (row4 m 2 p / row4 m 3 p),
-     mkV3 (rowl m 0 e * (n1 + ngamma 3) + rowa m 0 p * ngamma 3) (rowl m 1 e * (n1 + ngamma 3) + rowa m 1 p * ngamma 3)
-          (rowl m 2 e * (n1 + ngamma 3) + rowa m 2 p * ngamma 3)).
+     mkV3 (rowl m 0 e * (n1 + ngamma 3) + rowa m 0 p * ngamma 4) (rowl m 1 e * (n1 + ngamma 3) + rowa m 1 p * ngamma 4)
+          (rowl m 2 e * (n1 + ngamma 3) + rowa m 2 p * ngamma 4)).
   Proof. reflexivity. Qed.
 
   Ltac expose := unfold first_order; unfold fin3, safe_prods, safe_trans, within, inbox, vle, lin2, vaddR, vscaleR, V0, img_vec, img_pt, abs_img, abs_trans,
@@ -1229,7 +1338,7 @@ Section C16_float.
     rewrite !Rmult_1_l. tauto.
   Qed.
 
-  (** *** (S) vectors with an input box: PARTIAL, factor (1+4u) *)
+  (** *** (S) vectors with an input box: PARTIAL, factor (1+4u) (see Properties/C16.v for what is missing) *)
   Theorem S_vec_box : forall (m : M4 bf) (v e : V3 bf),
     let re := vec_propagate_error m v e in
     fin3 (snd re) -> safe_prods (B2M m) (B2V v) -> safe_prods (B2M m) (B2V e) ->
@@ -1255,8 +1364,6 @@ Section C16_float.
         match goal with |- (Rabs (_ - ?I) <= _)%R => match type of E with (Rabs (_ - ?J) <= _)%R => replace I with J by ring end end. exact E.
   Qed.
 
-  Ltac same_img E := match goal with |- (_ * Rabs (_ - ?I) <= _)%R => match type of E with (_ * Rabs (_ - ?J) <= _)%R => replace I with J by ring end end.
-
   (** the value part of a point function: each component is [row / w] with [w = 1] *)
   Lemma pt_value : forall (m : M4 bf) (p : V3 bf) (i : nat), affine_last m -> fin3 p -> fin (row4 m i p) ->
     fin (row4 m i p / row4 m 3 p) /\ B2R (row4 m i p / row4 m 3 p) = B2R (row4 m i p).
@@ -1266,11 +1373,11 @@ Section C16_float.
     apply div_one; assumption.
   Qed.
 
-  (** *** (S) points: PARTIAL, factor 4/3 (1+u) *)
-  Theorem S_pt_partial : forall (m : M4 bf) (p : V3 bf),
+  (** *** (S) points: TRUE at factor 1 since the bound uses gamma(4) *)
+  Theorem S_pt : forall (m : M4 bf) (p : V3 bf),
     let re := pt_with_error m p in
     affine_last m -> fin3 (snd re) -> safe_prods (B2M m) (B2V p) ->
-    fin3 (fst re) /\ within (4 / 3 * (1 + uro)) (B2V (fst re)) (img_pt (B2M m) (B2V p)) (B2V (snd re)).
+    fin3 (fst re) /\ within 1 (B2V (fst re)) (img_pt (B2M m) (B2V p)) (B2V (snd re)).
   Proof.
     intros m p re Haff. unfold re. rewrite pt_we_eq. expose.
     intros (Hx & Hy & Hz) ((a1 & a2 & a3) & (b1 & b2 & b3) & (c1 & c2 & c3)).
@@ -1280,16 +1387,16 @@ Section C16_float.
     destruct (comp_pt (m20 m) (m21 m) (m22 m) (m23 m) (vx p) (vy p) (vz p) c1 c2 c3 Hz) as (Fz & Ez).
     destruct (pt_value m p 0 Haff Fp Fx) as (Gx & Wx). destruct (pt_value m p 1 Haff Fp Fy) as (Gy & Wy).
     destruct (pt_value m p 2 Haff Fp Fz) as (Gz & Wz).
-    unfold row4, ent in Gx, Gy, Gz, Wx, Wy, Wz. rewrite Wx, Wy, Wz.
-    split. tauto. repeat split; lra.
+    unfold row4, ent in Gx, Gy, Gz, Wx, Wy, Wz. rewrite Wx, Wy, Wz. rewrite !Rmult_1_l.
+    split. tauto. tauto.
   Qed.
 
-  (** *** (S) points with an input box: PARTIAL, factor 4/3 (1+3u) *)
-  Theorem S_pt_box_partial : forall (m : M4 bf) (p e : V3 bf),
+  (** *** (S) points with an input box: PARTIAL, factor (1+4u) *)
+  Theorem S_pt_box : forall (m : M4 bf) (p e : V3 bf),
     let re := pt_propagate_error m p e in
     affine_last m -> fin3 (snd re) -> safe_prods (B2M m) (B2V p) -> safe_prods (B2M m) (B2V e) ->
     fin3 (fst re) /\
-    forall x' : V3 R, inbox (B2V p) (B2V e) x' -> within (4 / 3 * (1 + 3 * uro)) (B2V (fst re)) (img_pt (B2M m) x') (B2V (snd re)).
+    forall x' : V3 R, inbox (B2V p) (B2V e) x' -> within (1 + 4 * uro) (B2V (fst re)) (img_pt (B2M m) x') (B2V (snd re)).
   Proof.
     intros m p e re Haff. unfold re. rewrite pt_pe_eq. expose.
     intros (Hx & Hy & Hz) ((a1 & a2 & a3) & (b1 & b2 & b3) & (c1 & c2 & c3)) ((p1 & p2 & p3) & (q1 & q2 & q3) & (r1 & r2 & r3)).
@@ -1311,111 +1418,51 @@ Section C16_float.
     intros [x1 x2 x3]. cbn [vx vy vz]. intros (I1 & I2 & I3).
     split; [|split].
     + destruct (Cx _ (lin_dev (B2R (m00 m)) (B2R (m01 m)) (B2R (m02 m)) _ _ _ _ _ _ _ _ _ I1 I2 I3)) as (_ & E).
-      apply Rmult_le_reg_l with 3%R. lra. same_img E. lra.
+      match goal with |- (Rabs (_ - ?I) <= _)%R => match type of E with (Rabs (_ - ?J) <= _)%R => replace I with J by ring end end. exact E.
     + destruct (Cy _ (lin_dev (B2R (m10 m)) (B2R (m11 m)) (B2R (m12 m)) _ _ _ _ _ _ _ _ _ I1 I2 I3)) as (_ & E).
-      apply Rmult_le_reg_l with 3%R. lra. same_img E. lra.
+      match goal with |- (Rabs (_ - ?I) <= _)%R => match type of E with (Rabs (_ - ?J) <= _)%R => replace I with J by ring end end. exact E.
     + destruct (Cz _ (lin_dev (B2R (m20 m)) (B2R (m21 m)) (B2R (m22 m)) _ _ _ _ _ _ _ _ _ I1 I2 I3)) as (_ & E).
-      apply Rmult_le_reg_l with 3%R. lra. same_img E. lra.
+      match goal with |- (Rabs (_ - ?I) <= _)%R => match type of E with (Rabs (_ - ?J) <= _)%R => replace I with J by ring end end. exact E.
   Qed.
 
-  (** *** (M) for the functions without an input error: within a factor 2 of gamma3 (sum |m_ij x_j| + |m_i3|) *)
-  Theorem M_with_error : forall (m : M4 bf) (p : V3 bf),
-    let err := snd (pt_with_error m p) in
-    fin3 err -> safe_prods (B2M m) (B2V p) -> safe_trans (B2M m) ->
-    snd (vec_with_error m p) = err /\
-    vle (B2V err) (vscaleR 2 (first_order gamma3 (B2M m) (B2V p) V0)).
+  (** *** (M), the four [*_with_error] functions: within a factor 2 of gamma3 (sum |m_ij x_j| + |m_i3|) *)
+  Theorem M_with_error : forall (m : M4 bf) (p : V3 bf), safe_prods (B2M m) (B2V p) -> safe_trans (B2M m) ->
+    (fin3 (snd (pt_with_error m p)) -> vle (B2V (snd (pt_with_error m p))) (vscaleR 2 (first_order gamma3 (B2M m) (B2V p) V0))) /\
+    (fin3 (snd (vec_with_error m p)) -> vle (B2V (snd (vec_with_error m p))) (vscaleR 2 (first_order gamma3 (B2M m) (B2V p) V0))).
   Proof.
-    intros m p err. unfold err. intros G1 G2 G3. split. reflexivity. revert G1 G2 G3. rewrite pt_we_eq. expose.
-    intros (Hx & Hy & Hz) ((a1 & a2 & a3) & (b1 & b2 & b3) & (c1 & c2 & c3)) (t1 & t2 & t3).
-    rewrite !Rmult_0_r, Rabs_R0, !Rmult_1_l, !Rplus_0_r.
-    pose proof (comp_M (m00 m) (m01 m) (m02 m) (m03 m) (vx p) (vy p) (vz p) a1 a2 a3 t1 Hx).
-    pose proof (comp_M (m10 m) (m11 m) (m12 m) (m13 m) (vx p) (vy p) (vz p) b1 b2 b3 t2 Hy).
-    pose proof (comp_M (m20 m) (m21 m) (m22 m) (m23 m) (vx p) (vy p) (vz p) c1 c2 c3 t3 Hz).
-    repeat split; lra.
+    intros m p. rewrite pt_we_eq, vec_we_eq. expose.
+    intros ((a1 & a2 & a3) & (b1 & b2 & b3) & (c1 & c2 & c3)) (t1 & t2 & t3).
+    rewrite !Rmult_0_r, Rabs_R0, !Rmult_1_l, !Rplus_0_r. split; intros (Hx & Hy & Hz).
+    - pose proof (comp_M_pt (m00 m) (m01 m) (m02 m) (m03 m) (vx p) (vy p) (vz p) a1 a2 a3 t1 Hx).
+      pose proof (comp_M_pt (m10 m) (m11 m) (m12 m) (m13 m) (vx p) (vy p) (vz p) b1 b2 b3 t2 Hy).
+      pose proof (comp_M_pt (m20 m) (m21 m) (m22 m) (m23 m) (vx p) (vy p) (vz p) c1 c2 c3 t3 Hz).
+      repeat split; lra.
+    - pose proof (comp_M_vec (m00 m) (m01 m) (m02 m) (m03 m) (vx p) (vy p) (vz p) a1 a2 a3 t1 Hx).
+      pose proof (comp_M_vec (m10 m) (m11 m) (m12 m) (m13 m) (vx p) (vy p) (vz p) b1 b2 b3 t2 Hy).
+      pose proof (comp_M_vec (m20 m) (m21 m) (m22 m) (m23 m) (vx p) (vy p) (vz p) c1 c2 c3 t3 Hz).
+      repeat split; lra.
   Qed.
 
-  (** *** what the [*_propagate_error] functions report, from above: the translation entry |m_i3| enters the
-      propagated part with the factor (1+gamma3) -- this is the excess the finding is about *)
-  Theorem M_propagate_upper : forall (m : M4 bf) (p e : V3 bf),
-    let err := snd (pt_propagate_error m p e) in
-    fin3 err -> safe_prods (B2M m) (B2V p) -> safe_prods (B2M m) (B2V e) -> safe_trans (B2M m) ->
-    snd (vec_propagate_error m p e) = err /\
-    vle (B2V err) (vscaleR (1 + 9 * uro)
-      (lin2 (1 + gamma3) (vaddR (abs_img (B2M m) (B2V e)) (abs_trans (B2M m))) gamma3 (vaddR (abs_img (B2M m) (B2V p)) (abs_trans (B2M m))))).
+  (** *** (M), the four [*_propagate_error] functions: within a factor 2 of the first-order worst case,
+      WHATEVER the translation (the incoming error no longer meets the translation column) *)
+  Theorem M_propagate : forall (m : M4 bf) (p e : V3 bf),
+    safe_prods (B2M m) (B2V p) -> safe_prods (B2M m) (B2V e) -> safe_trans (B2M m) ->
+    (fin3 (snd (pt_propagate_error m p e)) ->
+     vle (B2V (snd (pt_propagate_error m p e))) (vscaleR 2 (first_order gamma3 (B2M m) (B2V p) (B2V e)))) /\
+    (fin3 (snd (vec_propagate_error m p e)) ->
+     vle (B2V (snd (vec_propagate_error m p e))) (vscaleR 2 (first_order gamma3 (B2M m) (B2V p) (B2V e)))).
   Proof.
-    intros m p e err. unfold err. intros G1 G2 G3 G4. split. reflexivity. revert G1 G2 G3 G4. rewrite pt_pe_eq. expose.
-    intros (Hx & Hy & Hz) ((a1 & a2 & a3) & (b1 & b2 & b3) & (c1 & c2 & c3)) ((p1 & p2 & p3) & (q1 & q2 & q3) & (r1 & r2 & r3)) (t1 & t2 & t3).
-    pose proof (comp_M_prop (m00 m) (m01 m) (m02 m) (m03 m) (vx p) (vy p) (vz p) a1 a2 a3 (vx e) (vy e) (vz e) p1 p2 p3 t1 Hx).
-    pose proof (comp_M_prop (m10 m) (m11 m) (m12 m) (m13 m) (vx p) (vy p) (vz p) b1 b2 b3 (vx e) (vy e) (vz e) q1 q2 q3 t2 Hy).
-    pose proof (comp_M_prop (m20 m) (m21 m) (m22 m) (m23 m) (vx p) (vy p) (vz p) c1 c2 c3 (vx e) (vy e) (vz e) r1 r2 r3 t3 Hz).
-    tauto.
-  Qed.
-
-  (** *** the proposed repair: (M) holds, whatever the translation, and the partial (S) bounds are unchanged *)
-  Theorem M_fixed : forall (m : M4 bf) (p e : V3 bf),
-    let err := snd (pt_propagate_error_fixed m p e) in
-    fin3 err -> safe_prods (B2M m) (B2V p) -> safe_prods (B2M m) (B2V e) -> safe_trans (B2M m) ->
-    snd (vec_propagate_error_fixed m p e) = err /\
-    vle (B2V err) (vscaleR 2 (first_order gamma3 (B2M m) (B2V p) (B2V e))).
-  Proof.
-    intros m p e err. unfold err. intros G1 G2 G3 G4. split. reflexivity. revert G1 G2 G3 G4. rewrite pt_pf_eq. expose.
-    intros (Hx & Hy & Hz) ((a1 & a2 & a3) & (b1 & b2 & b3) & (c1 & c2 & c3)) ((p1 & p2 & p3) & (q1 & q2 & q3) & (r1 & r2 & r3)) (t1 & t2 & t3).
-    pose proof (compf_M (m00 m) (m01 m) (m02 m) (m03 m) (vx p) (vy p) (vz p) (vx e) (vy e) (vz e) a1 a2 a3 p1 p2 p3 t1 Hx).
-    pose proof (compf_M (m10 m) (m11 m) (m12 m) (m13 m) (vx p) (vy p) (vz p) (vx e) (vy e) (vz e) b1 b2 b3 q1 q2 q3 t2 Hy).
-    pose proof (compf_M (m20 m) (m21 m) (m22 m) (m23 m) (vx p) (vy p) (vz p) (vx e) (vy e) (vz e) c1 c2 c3 r1 r2 r3 t3 Hz).
-    tauto.
-  Qed.
-
-  Theorem S_fixed_partial : forall (m : M4 bf) (p e : V3 bf),
-    safe_prods (B2M m) (B2V p) -> safe_prods (B2M m) (B2V e) ->
-    (let re := vec_propagate_error_fixed m p e in
-     fin3 (snd re) -> fin3 (fst re) /\
-     forall x' : V3 R, inbox (B2V p) (B2V e) x' -> within (1 + 4 * uro) (B2V (fst re)) (img_vec (B2M m) x') (B2V (snd re))) /\
-    (let re := pt_propagate_error_fixed m p e in
-     affine_last m -> fin3 (snd re) -> fin3 (fst re) /\
-     forall x' : V3 R, inbox (B2V p) (B2V e) x' -> within (4 / 3 * (1 + 3 * uro)) (B2V (fst re)) (img_pt (B2M m) x') (B2V (snd re))).
-  Proof.
-    intros m p e. expose.
-    intros ((a1 & a2 & a3) & (b1 & b2 & b3) & (c1 & c2 & c3)) ((p1 & p2 & p3) & (q1 & q2 & q3) & (r1 & r2 & r3)).
-    assert (Z : (Rabs 0 <= Rabs (B2R (m00 m) * B2R (vx e)) + Rabs (B2R (m01 m) * B2R (vy e)) + Rabs (B2R (m02 m) * B2R (vz e)))%R)
-      by (rewrite Rabs_R0; repeat apply Rplus_le_le_0_compat; apply Rabs_pos).
-    assert (Z1 : (Rabs 0 <= Rabs (B2R (m10 m) * B2R (vx e)) + Rabs (B2R (m11 m) * B2R (vy e)) + Rabs (B2R (m12 m) * B2R (vz e)))%R)
-      by (rewrite Rabs_R0; repeat apply Rplus_le_le_0_compat; apply Rabs_pos).
-    assert (Z2 : (Rabs 0 <= Rabs (B2R (m20 m) * B2R (vx e)) + Rabs (B2R (m21 m) * B2R (vy e)) + Rabs (B2R (m22 m) * B2R (vz e)))%R)
-      by (rewrite Rabs_R0; repeat apply Rplus_le_le_0_compat; apply Rabs_pos).
-    split.
-    - rewrite vec_pf_eq. expose. intros (Hx & Hy & Hz).
-      pose proof (fun d => compf_vec_box (m00 m) (m01 m) (m02 m) (m03 m) (vx p) (vy p) (vz p) (vx e) (vy e) (vz e) a1 a2 a3 p1 p2 p3 Hx d) as Cx.
-      pose proof (fun d => compf_vec_box (m10 m) (m11 m) (m12 m) (m13 m) (vx p) (vy p) (vz p) (vx e) (vy e) (vz e) b1 b2 b3 q1 q2 q3 Hy d) as Cy.
-      pose proof (fun d => compf_vec_box (m20 m) (m21 m) (m22 m) (m23 m) (vx p) (vy p) (vz p) (vx e) (vy e) (vz e) c1 c2 c3 r1 r2 r3 Hz d) as Cz.
-      destruct (Cx 0%R Z) as (Fx & _). destruct (Cy 0%R Z1) as (Fy & _). destruct (Cz 0%R Z2) as (Fz & _).
-      split. tauto.
-      intros [x1 x2 x3]. cbn [vx vy vz]. intros (I1 & I2 & I3).
-      split; [|split].
-      + destruct (Cx _ (lin_dev (B2R (m00 m)) (B2R (m01 m)) (B2R (m02 m)) _ _ _ _ _ _ _ _ _ I1 I2 I3)) as (_ & E).
-        match goal with |- (Rabs (_ - ?I) <= _)%R => match type of E with (Rabs (_ - ?J) <= _)%R => replace I with J by ring end end. exact E.
-      + destruct (Cy _ (lin_dev (B2R (m10 m)) (B2R (m11 m)) (B2R (m12 m)) _ _ _ _ _ _ _ _ _ I1 I2 I3)) as (_ & E).
-        match goal with |- (Rabs (_ - ?I) <= _)%R => match type of E with (Rabs (_ - ?J) <= _)%R => replace I with J by ring end end. exact E.
-      + destruct (Cz _ (lin_dev (B2R (m20 m)) (B2R (m21 m)) (B2R (m22 m)) _ _ _ _ _ _ _ _ _ I1 I2 I3)) as (_ & E).
-        match goal with |- (Rabs (_ - ?I) <= _)%R => match type of E with (Rabs (_ - ?J) <= _)%R => replace I with J by ring end end. exact E.
-    - rewrite pt_pf_eq. expose. intros Haff (Hx & Hy & Hz).
-      assert (Fp : fin3 p). { destruct (add_inv _ _ Hx) as (_ & H2 & _). exact (fin_inputs _ _ _ _ _ _ _ _ H2). }
-      pose proof (fun d => compf_pt_box (m00 m) (m01 m) (m02 m) (m03 m) (vx p) (vy p) (vz p) (vx e) (vy e) (vz e) a1 a2 a3 p1 p2 p3 Hx d) as Cx.
-      pose proof (fun d => compf_pt_box (m10 m) (m11 m) (m12 m) (m13 m) (vx p) (vy p) (vz p) (vx e) (vy e) (vz e) b1 b2 b3 q1 q2 q3 Hy d) as Cy.
-      pose proof (fun d => compf_pt_box (m20 m) (m21 m) (m22 m) (m23 m) (vx p) (vy p) (vz p) (vx e) (vy e) (vz e) c1 c2 c3 r1 r2 r3 Hz d) as Cz.
-      destruct (Cx 0%R Z) as (Fx & _). destruct (Cy 0%R Z1) as (Fy & _). destruct (Cz 0%R Z2) as (Fz & _).
-      destruct (pt_value m p 0 Haff Fp Fx) as (Gx & Wx). destruct (pt_value m p 1 Haff Fp Fy) as (Gy & Wy).
-      destruct (pt_value m p 2 Haff Fp Fz) as (Gz & Wz).
-      unfold row4, ent in Gx, Gy, Gz, Wx, Wy, Wz. rewrite Wx, Wy, Wz.
-      split. tauto.
-      intros [x1 x2 x3]. cbn [vx vy vz]. intros (I1 & I2 & I3).
-      split; [|split].
-      + destruct (Cx _ (lin_dev (B2R (m00 m)) (B2R (m01 m)) (B2R (m02 m)) _ _ _ _ _ _ _ _ _ I1 I2 I3)) as (_ & E).
-        apply Rmult_le_reg_l with 3%R. lra. same_img E. lra.
-      + destruct (Cy _ (lin_dev (B2R (m10 m)) (B2R (m11 m)) (B2R (m12 m)) _ _ _ _ _ _ _ _ _ I1 I2 I3)) as (_ & E).
-        apply Rmult_le_reg_l with 3%R. lra. same_img E. lra.
-      + destruct (Cz _ (lin_dev (B2R (m20 m)) (B2R (m21 m)) (B2R (m22 m)) _ _ _ _ _ _ _ _ _ I1 I2 I3)) as (_ & E).
-        apply Rmult_le_reg_l with 3%R. lra. same_img E. lra.
+    intros m p e. rewrite pt_pe_eq, vec_pe_eq. expose.
+    intros ((a1 & a2 & a3) & (b1 & b2 & b3) & (c1 & c2 & c3)) ((p1 & p2 & p3) & (q1 & q2 & q3) & (r1 & r2 & r3)) (t1 & t2 & t3).
+    split; intros (Hx & Hy & Hz).
+    - pose proof (comp_M_perrp (m00 m) (m01 m) (m02 m) (m03 m) (vx p) (vy p) (vz p) a1 a2 a3 (vx e) (vy e) (vz e) p1 p2 p3 t1 Hx).
+      pose proof (comp_M_perrp (m10 m) (m11 m) (m12 m) (m13 m) (vx p) (vy p) (vz p) b1 b2 b3 (vx e) (vy e) (vz e) q1 q2 q3 t2 Hy).
+      pose proof (comp_M_perrp (m20 m) (m21 m) (m22 m) (m23 m) (vx p) (vy p) (vz p) c1 c2 c3 (vx e) (vy e) (vz e) r1 r2 r3 t3 Hz).
+      tauto.
+    - pose proof (comp_M_perrv (m00 m) (m01 m) (m02 m) (m03 m) (vx p) (vy p) (vz p) a1 a2 a3 (vx e) (vy e) (vz e) p1 p2 p3 t1 Hx).
+      pose proof (comp_M_perrv (m10 m) (m11 m) (m12 m) (m13 m) (vx p) (vy p) (vz p) b1 b2 b3 (vx e) (vy e) (vz e) q1 q2 q3 t2 Hy).
+      pose proof (comp_M_perrv (m20 m) (m21 m) (m22 m) (m23 m) (vx p) (vy p) (vz p) c1 c2 c3 (vx e) (vy e) (vz e) r1 r2 r3 t3 Hz).
+      tauto.
   Qed.
 End C16_float.
 
@@ -1478,14 +1525,16 @@ Proof.
   repeat split; b2r_goal; sf_lit; safe_tac.
 Qed.
 
-(** (S) is FALSE for points: the exact image of [wS_p] under the stored matrix [wS_m] is further from the returned
-    point than the returned error (x component; ratio 1.136).  The guards of the partial theorem all hold. *)
-Lemma S_point_refuted : exists (m : M4 b64) (p : V3 b64),
-  let re := @pt_with_error _ NumB64 m p in
+Lemma wS_fin_pinned : fin3 53 1024 (snd (@pt_with_error_pinned _ NumB64 wS_m wS_p)).
+Proof. unfold fin3. repeat split; vm_compute; reflexivity. Qed.
+(** (S) was FALSE for points with gamma(3) (code before fix: 34af114): the exact image of [wS_p] under the stored
+    matrix [wS_m] is further from the returned point than the returned error (x component; ratio 1.136), all guards holding. *)
+Lemma S_point_pinned_refuted : exists (m : M4 b64) (p : V3 b64),
+  let re := @pt_with_error_pinned _ NumB64 m p in
   affine_last 53 1024 m /\ fin3 53 1024 (snd re) /\ safe_prods 53 1024 (B2M 53 1024 m) (B2V 53 1024 p) /\
   ~ within 1 (B2V 53 1024 (fst re)) (img_pt (B2M 53 1024 m) (B2V 53 1024 p)) (B2V 53 1024 (snd re)).
 Proof.
-  exists wS_m, wS_p. cbv zeta. split. exact wS_affine. split. exact wS_fin. split. exact wS_safe.
+  exists wS_m, wS_p. cbv zeta. split. exact wS_affine. split. exact wS_fin_pinned. split. exact wS_safe.
   unfold within, img_pt, B2V, B2M. cbn [vx vy vz m00 m01 m02 m03]. intros (Hx & _).
   unfold wS_m in Hx at 2 3 4 5. unfold wS_p in Hx at 2 3 4. cbn [vx vy vz m00 m01 m02 m03] in Hx.
   b2r_hyp Hx. sf_lit. apply Rabs_le_inv in Hx. lra.
@@ -1523,16 +1572,16 @@ Proof.
   unfold safe_trans, B2M, wM_m. cbn [m03 m13 m23].
   repeat split; b2r_goal; sf_lit; first [ left; reflexivity | apply safe64_big; rewrite Rabs_pos_eq by lra; lra ].
 Qed.
-Lemma wM_fin : fin3 53 1024 (snd (@pt_propagate_error _ NumB64 wM_m wM_p wS_e)).
+Lemma wM_fin : fin3 53 1024 (snd (@pt_propagate_error_pinned _ NumB64 wM_m wM_p wS_e)).
 Proof. unfold fin3. repeat split; vm_compute; reflexivity. Qed.
 
-(** (M) is FALSE for the [*_propagate_error] functions: [translate(1000,0,0)], point (1,2,3), input error 1e-9:
-    the reported x error is 1000.000000001 where the first-order worst case is 1.0000003e-9 *)
-Lemma M_refuted : exists (m : M4 b64) (p e : V3 b64),
-  let err := snd (@pt_propagate_error _ NumB64 m p e) in
+(** (M) was FALSE for the [*_propagate_error] functions (code before fix: 5455df2): [translate(1000,0,0)], point
+    (1,2,3), input error 1e-9: the reported x error is 1000.000000001 where the first-order worst case is 1.0000003e-9 *)
+Lemma M_pinned_refuted : exists (m : M4 b64) (p e : V3 b64),
+  let err := snd (@pt_propagate_error_pinned _ NumB64 m p e) in
   affine_last 53 1024 m /\ fin3 53 1024 err /\ safe_prods 53 1024 (B2M 53 1024 m) (B2V 53 1024 p) /\
   safe_prods 53 1024 (B2M 53 1024 m) (B2V 53 1024 e) /\ safe_trans 53 1024 (B2M 53 1024 m) /\
-  snd (@vec_propagate_error _ NumB64 m p e) = err /\
+  snd (@vec_propagate_error_pinned _ NumB64 m p e) = err /\
   ~ vle (B2V 53 1024 err) (vscaleR 2 (first_order (gamma3 53) (B2M 53 1024 m) (B2V 53 1024 p) (B2V 53 1024 e))) /\
   100000000000 * vx (first_order (gamma3 53) (B2M 53 1024 m) (B2V 53 1024 p) (B2V 53 1024 e)) < vx (B2V 53 1024 err).
 Proof.
@@ -1540,14 +1589,14 @@ Proof.
   split. exact wM_affine. split. exact wM_fin. split. exact wM_safe_p. split. exact wM_safe_e. split. exact wM_safe_t.
   split. reflexivity.
   assert (K : 100000000000 * vx (first_order (gamma3 53) (B2M 53 1024 wM_m) (B2V 53 1024 wM_p) (B2V 53 1024 wS_e))
-              < vx (B2V 53 1024 (snd (@pt_propagate_error _ NumB64 wM_m wM_p wS_e)))).
+              < vx (B2V 53 1024 (snd (@pt_propagate_error_pinned _ NumB64 wM_m wM_p wS_e)))).
   { unfold first_order, lin2, vaddR, abs_img, abs_trans, B2V, B2M. cbn [vx vy vz m00 m01 m02 m03].
     unfold wM_m at 1 2 3 4 5 6 7. unfold wM_p at 1 2 3. unfold wS_e at 1 2 3. cbn [vx vy vz m00 m01 m02 m03].
     rewrite gamma3_53. b2r_goal. sf_lit.
     repeat match goal with |- context [Rabs ?x] => first [ rewrite (Rabs_pos_eq x) by lra ] end. lra. }
   split; [|exact K].
   intros (Hx & _). revert K Hx.
-  generalize (vx (B2V 53 1024 (snd (@pt_propagate_error _ NumB64 wM_m wM_p wS_e)))).
+  generalize (vx (B2V 53 1024 (snd (@pt_propagate_error_pinned _ NumB64 wM_m wM_p wS_e)))).
   unfold vscaleR. cbn [vx].
   assert (P : 0 <= vx (first_order (gamma3 53) (B2M 53 1024 wM_m) (B2V 53 1024 wM_p) (B2V 53 1024 wS_e))).
   { unfold first_order, lin2, vaddR, abs_img, abs_trans. cbn [vx]. pose proof (gamma3_pos 53 ltac:(lia)).
@@ -1591,7 +1640,9 @@ Proof.
 Qed.
 Lemma wS_fin_box : fin3 53 1024 (snd (@pt_propagate_error _ NumB64 wS_m wS_p wS_e)).
 Proof. unfold fin3. repeat split; vm_compute; reflexivity. Qed.
-Lemma wS_fin_fixed : fin3 53 1024 (snd (@pt_propagate_error_fixed _ NumB64 wS_m wS_p wS_e)).
+Lemma wS_fin_vbox : fin3 53 1024 (snd (@vec_propagate_error _ NumB64 wS_m wS_p wS_e)).
+Proof. unfold fin3. repeat split; vm_compute; reflexivity. Qed.
+Lemma wS_fin_v : fin3 53 1024 (snd (@vec_with_error _ NumB64 wS_m wS_p)).
 Proof. unfold fin3. repeat split; vm_compute; reflexivity. Qed.
 Lemma wS_inbox : inbox (B2V 53 1024 wS_p) (B2V 53 1024 wS_e) (B2V 53 1024 wS_p).
 Proof.
@@ -1603,9 +1654,25 @@ Lemma C16_nonvacuous_proof :
   fin3 53 1024 (snd (@vec_with_error _ NumB64 wS_m wS_p)) /\
   fin3 53 1024 (snd (@pt_propagate_error _ NumB64 wS_m wS_p wS_e)) /\
   fin3 53 1024 (snd (@vec_propagate_error _ NumB64 wS_m wS_p wS_e)) /\
-  fin3 53 1024 (snd (@pt_propagate_error_fixed _ NumB64 wS_m wS_p wS_e)) /\
   safe_prods 53 1024 (B2M 53 1024 wS_m) (B2V 53 1024 wS_p) /\ safe_prods 53 1024 (B2M 53 1024 wS_m) (B2V 53 1024 wS_e) /\
   safe_trans 53 1024 (B2M 53 1024 wS_m) /\ inbox (B2V 53 1024 wS_p) (B2V 53 1024 wS_e) (B2V 53 1024 wS_p).
 Proof.
-  repeat split; try (vm_compute; reflexivity); first [ apply wS_affine | apply wS_safe | apply wS_safe_e | apply wS_safe_t | apply wS_inbox | idtac ].
+  split. exact wS_affine. split. exact wS_fin. split. exact wS_fin_v. split. exact wS_fin_box. split. exact wS_fin_vbox.
+  split. exact wS_safe. split. exact wS_safe_e. split. exact wS_safe_t. exact wS_inbox.
+Qed.
+
+(** the repaired code is sound on the witness of the former finding (instance of [S_pt]) *)
+Lemma S_point_witness_now_sound :
+  let re := @pt_with_error _ NumB64 wS_m wS_p in
+  within 1 (B2V 53 1024 (fst re)) (img_pt (B2M 53 1024 wS_m) (B2V 53 1024 wS_p)) (B2V 53 1024 (snd re)).
+Proof.
+  exact (proj2 (S_pt 53 1024 Hprec53 Hmax1024 ltac:(lia) wS_m wS_p wS_affine wS_fin wS_safe)).
+Qed.
+(** and the translation no longer enters the propagated error (instance of [M_propagate]) *)
+Lemma M_witness_now_meaningful :
+  vle (B2V 53 1024 (snd (@pt_propagate_error _ NumB64 wM_m wM_p wS_e)))
+      (vscaleR 2 (first_order (gamma3 53) (B2M 53 1024 wM_m) (B2V 53 1024 wM_p) (B2V 53 1024 wS_e))).
+Proof.
+  apply (proj1 (M_propagate 53 1024 Hprec53 Hmax1024 ltac:(lia) wM_m wM_p wS_e wM_safe_p wM_safe_e wM_safe_t)).
+  unfold fin3. repeat split; vm_compute; reflexivity.
 Qed.
